@@ -65,7 +65,8 @@ TRUSTED = [
     'user function does not itself raise ValidationFailure / InterestTimeout / InterestNack',
     'C14: the world of retrievable certificates answers an Interest as a function of the whole Interest (name, CanBePrefix, '
     'MustBeFresh, lifetime) and changes only BETWEEN validations (`world` events of the model; a validation is atomic: '
-    'concurrent validations of one instance are not modelled); NDNApp.express_interest is reduced to `express`: the returned Data is '
+    'concurrent validations of one instance are not modelled - stream conc:* runs them against the real validator and judges '
+    'every verdict by the ground-truth chain oracle only); NDNApp.express_interest is reduced to `express`: the returned Data is '
     'taken iff it passes the pending-Interest test (same name, or CanBePrefix), else Nack / timeout (PIT behaviour is C03: the '
     'test is tied to its specification by pit_exact_for_cert_interest, not re-proved from the PIT model); the Interest the model '
     'sends (exact name, MustBeFresh, 4000 ms) is compared field by field with what the simulated producer receives; key locators '
@@ -89,7 +90,12 @@ TRUSTED = [
 RULE = ('PKIs over 5 LVS schema templates (site/admin/user/device, a flat variant, a looser variant, a two-roots schema, an '
         'ambiguous schema that admits certificate loops) with EC P-256 / RSA-2048 / Ed25519 keys, chains of depth 1..4, one '
         'deviation per case at a random link (wrong name shape, forged signature, substituted key, missing certificate, Nack, '
-        'timeout, unsigned / digest / empty key locator, loop, declared type != algorithm, HMAC with the public bits, empty or '
+        'timeout, unsigned / digest / empty key locator, loop, declared type != algorithm, HMAC with the public bits, '
+        'PUBFORGE: what an attacker without any private key can compute - SignatureType rewritten to every assigned and '
+        'unassigned number (DigestSha256, HMAC, RSA, ECDSA, Ed25519, 2, 6, 7, 100, 200 = NULL, 253, 255), KeyLocator naming the '
+        'genuine certificate, SignatureValue = plain SHA-256 of the signed portion / HMAC-SHA256 keyed with the public key '
+        'bits the named certificate carries / with its name / with the whole certificate packet / with the empty key / '
+        'absent / zeros, on the packet, on any certificate of the chain and on a would-be anchor; empty or '
         'garbage key, other certificate served, key locator = KeyDigest, certificate missing while a validly signed '
         'schema-allowed Data one component longer exists [the simulated producer answers CanBePrefix Interests as a '
         'forwarder would], expired / not-yet-valid / ContentType!=KEY certificate [acceptance expected, refusal not '
@@ -114,7 +120,18 @@ RULE = ('PKIs over 5 LVS schema templates (site/admin/user/device, a flat varian
         'LVS schemas (generator of C11-C13; links on which the check raises are preferred when there are any; half of the multi-root ones funnelled into one root), user_fns dictionaries '
         'lacking some functions, up to 7 names (instances of root rules, signed/signer instances, near misses, some with an '
         'implicit digest) each tried as the name of a properly self-signed anchor, and 3..7 packets signed / not signed by an '
-        'anchor; non-trivial there = one anchor accepted and one refused')
+        'anchor; non-trivial there = one anchor accepted and one refused. Stream `conc:*` (oracle only): CONCURRENT '
+        'validations on one NDNApp - 2..6 packets being validated at the same time by one instance / two instances / two '
+        'instances handed one storage object, their chains sharing certificate names: a second certificate under the same '
+        'name with another key (properly issued, or forged), the same key issued again (other bytes), another version of '
+        'the certificate, key locators that pin a certificate packet by its implicit digest (N/sha256digest=..., every '
+        'certificate of a variant chain cloned and pinned) or name it plainly, signed with the key of the certificate they '
+        'name / of its twin / an unrelated key, twins that nobody publishes (unknown digests Nacked or unanswered), the plain '
+        'name Nacked / silent / absent while the certificates stay reachable by digest; every validation started (mostly) '
+        'before the first certificate answer, the answers delivered one at a time in an order drawn per case; legacy '
+        'front-end (2/3) and ndn.appv2 through a three-line express_interest adapter (1/3); each verdict must be the one '
+        'the packet has alone: an acceptance needs a chain through certificates the network hands out, a chain whose every '
+        'link pins a published certificate or names the only Data published under its name must be accepted')
 
 T0 = 1000.0
 VERSION = 'v=1000000'
@@ -361,6 +378,8 @@ def declared(o):
         return m[3:]
     if m == 'hmac':
         return 'hmac'
+    if m.startswith('pub:'):      # a forgery from public data: the declared type is whatever the forger wrote
+        return {1: 'rsa', 3: 'ecdsa', 4: 'hmac', 5: 'ed25519'}.get(int(m.split(':')[1]), 'other')
     return 'other'
 
 
@@ -488,11 +507,13 @@ def _signer_for(case, o):
         return None
     if mode == 'digest':
         return DigestSha256Signer()
-    kn = fullname(case['objs'][o['kl']])
+    kn = wire_kl_name(case, o)
     if mode == 'hmac':
         target = case['objs'][o['kl']]
         bits = pool[target['key']][2] if target['key'] in pool else b'k'
         return HmacSha256Signer(kn, bits)
+    if mode.startswith('pub:'):
+        return _pub_forger(case, o, kn)
     typ, prv, _ = pool[o['by']]
     if o['by'] not in _SIGNERS:      # importing an RSA private key runs primality tests: do it once per key
         _SIGNERS[o['by']] = {'ec': Sha256WithEcdsaSigner, 'rsa': Sha256WithRsaSigner, 'ed': Ed25519Signer}[typ]('/x', prv)
@@ -524,6 +545,63 @@ def _signer_for(case, o):
     return Wrapped()
 
 
+PUB_TYPES = [0, 0, 4, 4, 4, 1, 3, 5, 2, 6, 7, 100, 200, 253, 255]      # (the encoder writes SignatureType in one byte)
+PUB_VALUES = ['sha', 'sha', 'hmacpub', 'hmacpub', 'hmacpub', 'hmacname', 'hmaccert', 'hmacempty', 'empty', 'zeros']
+
+
+def _pub_forger(case, o, kn):
+    """mode `pub:<SignatureType number>:<value kind>`: what an attacker who holds NO private key can put on a packet.  He
+    rewrites the SignatureType (to any assigned or unassigned number), names the victim's certificate in the KeyLocator and
+    computes the SignatureValue from PUBLIC inputs only: the plain SHA-256 of the signed portion, HMAC-SHA256 of it keyed with
+    the public key bits the named certificate carries (its Content) / with the certificate's name / with the whole
+    certificate packet / with the empty key, no value at all, 32 zero bytes."""
+    from ndn.encoding import Signer, KeyLocator, Name
+    from Cryptodome.Hash import SHA256, HMAC
+    _, typ, val = o['mode'].split(':')
+    typ = int(typ)
+    target = case['objs'][o['kl']]
+    if val == 'hmacpub':
+        key = _content_bits(target) if target.get('key') else b''
+    elif val == 'hmacname':
+        key = bytes(Name.to_bytes(Name.from_str(fullname(target))))
+    elif val == 'hmaccert':
+        key = build_wire(case, o['kl']) if target is not o else b'self'
+    else:
+        key = b''
+
+    class Forger(Signer):
+        def write_signature_info(self, signature_info):
+            signature_info.signature_type = typ
+            signature_info.key_locator = KeyLocator()
+            signature_info.key_locator.name = kn
+
+        def get_signature_value_size(self):
+            return 0 if val == 'empty' else 32
+
+        def write_signature_value(self, wire, contents):
+            if val == 'empty':
+                return 0
+            if val == 'zeros':
+                wire[:] = bytes(32)
+                return 32
+            h = SHA256.new() if val == 'sha' else HMAC.new(key, digestmod=SHA256)
+            for blk in contents:
+                h.update(blk)
+            wire[:] = h.digest()
+            return 32
+    return Forger()
+
+
+def wire_kl_name(case, o):
+    """the name written into the KeyLocator: the certificate's name, followed - when the description says `pin` - by the
+    implicit SHA-256 digest of that certificate PACKET (`N/sha256digest=...`: names one exact Data)"""
+    kn = fullname(case['objs'][o['kl']])
+    if o.get('pin'):
+        import hashlib
+        kn += '/sha256digest=' + hashlib.sha256(build_wire(case, o['kl'])).hexdigest()
+    return kn
+
+
 def _content_bits(o):
     pool = _pool()
     if o['key'] == 'empty':
@@ -540,7 +618,10 @@ def build_wire(case, oid):
     from datetime import datetime, timezone
     o = case['objs'][oid]
     tgt = case['objs'][o['kl']] if o.get('kl') is not None else None
-    key = lib.jdump([o, fullname(tgt) if tgt else None, tgt.get('key') if tgt and o['mode'] == 'hmac' else None])
+    key = lib.jdump([o, fullname(tgt) if tgt else None,
+                     tgt.get('key') if tgt and (o['mode'] == 'hmac' or o['mode'].startswith('pub:')) else None,
+                     wire_kl_name(case, o) if tgt and o.get('pin') else None,
+                     build_wire(case, o['kl']).hex() if tgt and o['mode'].endswith(':hmaccert') and tgt is not o else None])
     if key in _WIRES:
         return _WIRES[key]
     signer = _signer_for(case, o)
@@ -560,6 +641,7 @@ def build_wire(case, oid):
             start, secs = datetime(1960, 1, 1, tzinfo=timezone.utc), 3600
         elif odd == 'future':
             start, secs = datetime(2090, 1, 1, tzinfo=timezone.utc), 3600
+        secs += 3600 * o.get('twin', 0)      # a second certificate under one name: other bytes whatever the algorithm
         from ndn.app_support import security_v2 as sv2
         real_meta = sv2.MetaInfo
         if odd == 'ctype':       # new_cert hard-codes ContentType.KEY: substitute BLOB while this one certificate is built
@@ -624,9 +706,55 @@ def _fresh_process_state():
             d._cache.clear()
 
 
+def _build_insts(case, rig, app, wires, names, out):
+    """builds every validator instance of the case on `app` (None where the constructor refused); what the real checker
+    answers about the schema goes into out['insts']"""
+    from ndn.app_support.light_versec import lvs_validator
+    objs = case['objs']
+    validators = []
+    shared = {}
+    from ndn.security.validator import cascade_validator as cv
+    for inst in case['insts']:
+        schema = case['schemas'][inst['schema']]
+        checker = get_checker(schema, inst.get('userfns', True))
+        try:
+            matched = sorted(set(sum((m[0] for m in checker.match(names[inst['anchor']])), start=[])))
+        except Exception as e:      # noqa - the class is the observation
+            matched = 'E:' + _exc_name(e)
+        # the real checker's answers are OBSERVATIONS compared with what the composed model computes (they are not
+        # handed to the model): validate_user_fns, root_of_trust, the anchor's matches, Checker.check on every link
+        rec = {'roots': sorted(checker.root_of_trust()),
+               'matched': matched,
+               'userfns': bool(checker.validate_user_fns()),
+               'links': ['-' if kl_name(case, objs[oid]) is None
+                         else _real_check(checker, names[oid], kl_name(case, objs[oid])) for oid in sorted(objs)],
+               'token': LC.enc_model(checker.model),
+               'env': sorted(LC.mods()[6]) if inst.get('userfns', True) else []}
+        kw = {}
+        st = inst.get('storage')      # None: the default argument; else an explicitly passed storage object
+        if st == 'mem':
+            kw['storage'] = cv.MemoryKeyStorage()
+        elif st == 'empty':
+            kw['storage'] = cv.EmptyKeyStorage()
+        elif st:                      # 'share…': ONE MemoryKeyStorage passed to several instances
+            kw['storage'] = shared.setdefault(st, cv.MemoryKeyStorage())
+        try:
+            v = rig.loop.call_now(lambda: lvs_validator(checker, app, wires[inst['anchor']], **kw))
+            rec['built'] = 'ok'
+        except Exception as e:       # noqa - the class is the observation
+            v = None
+            rec['built'] = 'err:' + _exc_name(e)
+        validators.append(v)
+        out['insts'].append(rec)
+
+    return validators
+
+
 def run_impl(case):
     if LV.is_lvs(case):
         return LV.run_impl(case)
+    if case.get('conc'):
+        return run_conc(case)
     from apphelp import AppRig
     from ndn import encoding as enc
     from ndn.app_support.light_versec import lvs_validator
@@ -636,41 +764,7 @@ def run_impl(case):
         wires = {oid: build_wire(case, oid) for oid in sorted(objs)}
         names = {oid: fullname(objs[oid]) for oid in objs}
         out = {'insts': [], 'steps': [], 'names': names}
-        validators = []
-        shared = {}
-        from ndn.security.validator import cascade_validator as cv
-        for inst in case['insts']:
-            schema = case['schemas'][inst['schema']]
-            checker = get_checker(schema, inst.get('userfns', True))
-            try:
-                matched = sorted(set(sum((m[0] for m in checker.match(names[inst['anchor']])), start=[])))
-            except Exception as e:      # noqa - the class is the observation
-                matched = 'E:' + _exc_name(e)
-            # the real checker's answers are OBSERVATIONS compared with what the composed model computes (they are not
-            # handed to the model): validate_user_fns, root_of_trust, the anchor's matches, Checker.check on every link
-            rec = {'roots': sorted(checker.root_of_trust()),
-                   'matched': matched,
-                   'userfns': bool(checker.validate_user_fns()),
-                   'links': ['-' if kl_name(case, objs[oid]) is None
-                             else _real_check(checker, names[oid], kl_name(case, objs[oid])) for oid in sorted(objs)],
-                   'token': LC.enc_model(checker.model),
-                   'env': sorted(LC.mods()[6]) if inst.get('userfns', True) else []}
-            kw = {}
-            st = inst.get('storage')      # None: the default argument; else an explicitly passed storage object
-            if st == 'mem':
-                kw['storage'] = cv.MemoryKeyStorage()
-            elif st == 'empty':
-                kw['storage'] = cv.EmptyKeyStorage()
-            elif st:                      # 'share…': ONE MemoryKeyStorage passed to several instances
-                kw['storage'] = shared.setdefault(st, cv.MemoryKeyStorage())
-            try:
-                v = rig.loop.call_now(lambda: lvs_validator(checker, rig.app, wires[inst['anchor']], **kw))
-                rec['built'] = 'ok'
-            except Exception as e:       # noqa - the class is the observation
-                v = None
-                rec['built'] = 'err:' + _exc_name(e)
-            validators.append(v)
-            out['insts'].append(rec)
+        validators = _build_insts(case, rig, rig.app, wires, names, out)
 
         face = rig.face
         world = dict(case['world'])
@@ -738,6 +832,206 @@ def run_impl(case):
         return out
 
 
+# ------------------------------------------------------------------------- concurrent validations (stream conc:*)
+# Several validations IN FLIGHT AT ONCE on one NDNApp (any validator instances): every step of the case is started
+# while the others wait for their certificates, and the simulated network answers the outstanding certificate Interests
+# one at a time in an order the case prescribes (`sched`).  Certificates may share a NAME: `twins` are further Data
+# packets published under a name the world already serves (another key properly issued under the same name, a forged
+# one, the same certificate re-issued) - the network hands them out to Interests that pin them by implicit digest
+# (`N/sha256digest=...`, key locator field `pin`).  Ground truth and oracle: conc_chain.
+class _V2AsV1:
+    """what a user of the new front-end has to write to use the (v1-typed) cascade validator on ndn.appv2.NDNApp:
+    `express_interest(name, validator=..., **interest parameters)` on top of `NDNApp.express`.  Harness code, no logic:
+    a bool verdict becomes PASS / FAIL, the result tuple is reordered."""
+
+    def __init__(self, app):
+        self.app = app
+
+    def express_interest(self, name, validator=None, **kw):
+        from ndn import appv2
+
+        async def val(n, sig, ctx):
+            return appv2.ValidResult.PASS if await validator(n, sig) else appv2.ValidResult.FAIL
+
+        async def go(coro):
+            n, content, ctx = await coro
+            return n, ctx.get('meta_info'), content
+        return go(self.app.express(name, val, **kw))
+
+
+def published(case):
+    """every Data the network can hand out: what the world serves under a name, and the twins"""
+    out = []
+    for oid in [w[1] for _, w in sorted(case['world'].items()) if w[0] == 'D'] + list(case.get('twins', [])):
+        if oid not in out:
+            out.append(oid)
+    return out
+
+
+def run_conc(case):
+    import hashlib
+    from apphelp import AppRig
+    from ndn import encoding as enc
+    _fresh_process_state()
+    front = case.get('front', 'v1')
+    with AppRig(front, t0=T0) as rig:
+        objs = case['objs']
+        wires = {oid: build_wire(case, oid) for oid in sorted(objs)}
+        names = {oid: fullname(objs[oid]) for oid in objs}
+        out = {'insts': [], 'steps': [], 'names': names, 'conc': True}
+        app = rig.app if front == 'v1' else _V2AsV1(rig.app)
+        validators = _build_insts(case, rig, app, wires, names, out)
+        face, world, pubs = rig.face, case['world'], published(case)
+        by_digest = {(names[oid], hashlib.sha256(wires[oid]).digest()): oid for oid in pubs}
+        boxes, tasks = {}, {}
+
+        def start(k):
+            ii, oid = case['steps'][k]
+            v = validators[ii]
+            if v is None:
+                return
+            name, _, _, sig = enc.parse_data(wires[oid])
+            box = boxes[k] = {}
+
+            async def go():
+                try:
+                    box['r'] = await v(name, sig)
+                except BaseException as e:      # noqa
+                    box['e'] = e
+            tasks[k] = rig.loop.create_task(go())
+            rig.loop.settle()
+
+        def answer(w):
+            iname, ipar, _, _ = enc.parse_interest(w)
+            last = bytes(iname[-1]) if iname else b''
+            if len(last) == 34 and last[0] == 1:       # ImplicitSha256DigestComponent: one exact packet or nothing
+                oid = by_digest.get((_uri(iname[:-1]), last[2:]))
+                if oid is not None:
+                    rig.deliver(wires[oid])
+                elif case.get('dnack'):
+                    rig.deliver(bytes(enc.make_network_nack(w, enc.NackReason.NO_ROUTE)))
+                return
+            wo = world.get(_uri(iname))
+            if not wo or wo[0] == 'T':
+                return
+            if wo[0] == 'N':
+                rig.deliver(bytes(enc.make_network_nack(w, enc.NackReason.NO_ROUTE)))
+            else:
+                rig.deliver(wires[wo[1]])
+
+        sched = list(case.get('sched', []))
+        todo = list(range(len(case['steps'])))
+        queue, interests, cursor, idle, served, maxq, inflight = [], [], 0, 0, 0, 0, 0
+        while idle < 40:
+            for w in face.sent[cursor:]:
+                iname, ipar, _, _ = enc.parse_interest(w)
+                interests.append([_uri(iname), int(bool(ipar.can_be_prefix)), int(bool(ipar.must_be_fresh)), ipar.lifetime])
+                queue.append(w)
+            cursor = len(face.sent)
+            maxq = max(maxq, len(queue))
+            inflight = max(inflight, sum(1 for t in tasks.values() if not t.done()))
+            nopt = (1 if todo else 0) + len(queue)
+            if nopt == 0:
+                if all(t.done() for t in tasks.values()):
+                    break
+                rig.loop.advance(rig.loop.time() + 4.5)      # nothing to answer: the pending Interests time out
+                idle += 1
+                continue
+            pick = (sched.pop(0) if sched else 0) % nopt
+            if todo and pick == 0:
+                start(todo.pop(0))
+                continue
+            w = queue.pop(pick - (1 if todo else 0))
+            served += 1
+            if served <= 4 * case.get('budget', BUDGET):
+                answer(w)
+        for k in range(len(case['steps'])):
+            if k not in tasks:
+                out['steps'].append({'verdict': 'X', 'fetched': []})
+                continue
+            box = boxes[k]
+            if not tasks[k].done():
+                verdict = 'HANG'
+            elif 'e' in box:
+                verdict = 'E:' + _exc_name(box['e'])
+            else:
+                verdict = 'A' if box.get('r') else 'R'
+            out['steps'].append({'verdict': verdict, 'fetched': [], 'raw': repr(box.get('r')) if 'r' in box else None,
+                                 'exc': type(box['e']).__name__ if 'e' in box else None})
+        out['interests'] = interests
+        out['max_outstanding'] = maxq
+        out['max_inflight'] = inflight
+        out['loop_errors'] = rig.loop.errors
+        return out
+
+
+def conc_chain(case, inst, oid):
+    """(possible, certain): is there a chain oid - certificate - ... - anchor through certificates the network can hand out?
+    A key locator that pins a certificate packet by its implicit digest names exactly that packet; a plain one names every
+    Data published under the name.  `possible`: some choice of published certificates is a chain (an acceptance needs one).
+    `certain`: every link is to the anchor, pins a published certificate, or names a certificate that is the ONLY Data
+    published under its name and is what the world serves under it - whichever answers are under way, the certificates of
+    this chain are what the validator gets (a refusal is judged only then: when several Data share the name, which one a
+    plain Interest retrieves is the network's choice)."""
+    schema = case['schemas'][inst['schema']]
+    anchor = case['objs'][inst['anchor']]
+    aname = fullname(anchor)
+    pubs = published(case)
+    byname = {}
+    for p_ in pubs:
+        byname.setdefault(fullname(case['objs'][p_]), []).append(p_)
+
+    def rec(o, seen):
+        kn = kl_name(case, o)
+        if kn is None or not spec_allowed(schema, fullname(o), kn):
+            return False, False
+        if kn == aname and (not o.get('pin') or (os.environ.get('C14_PIN_ANCHOR') and o['kl'] == inst['anchor'])):
+            # (a key locator that names the anchor certificate WITH its implicit digest is read as naming the anchor only
+            # under C14_PIN_ANCHOR=1: the unchanged library fetches the anchor from the network and refuses, because the
+            # schema does not let the anchor sign itself.  Never generated by default.)
+            ok = spec_verifies(anchor['key'], o)
+            return ok, ok
+        if o.get('pin'):
+            cands, sure = ([o['kl']] if o['kl'] in pubs else []), True
+        else:
+            cands = byname.get(kn, [])
+            w = case['world'].get(kn)
+            sure = len(cands) == 1 and bool(w) and w[0] == 'D' and w[1] == cands[0]
+        poss = cert = False
+        for c_ in cands:
+            c = case['objs'][c_]
+            if c_ in seen or c.get('kind') == 'pkt' or not spec_verifies(c.get('key'), o):
+                continue
+            p2, c2 = rec(c, seen | {c_})
+            poss = poss or p2
+            cert = cert or (p2 and c2 and sure)
+        return poss, cert
+    return rec(case['objs'][oid], frozenset())
+
+
+def oracle_conc(case, impl):
+    for k, (inst, rec) in enumerate(zip(case['insts'], impl['insts'])):
+        exp, got = spec_buildable(case, inst), rec['built'] == 'ok'
+        if got != exp:
+            return (f'instance {k}: validator was built although the anchor does not match the roots of trust or is not properly '
+                    f'self-signed' if got else f'instance {k}: validator refused a matching, properly self-signed anchor: {rec["built"]}')
+    for k, ((ii, oid), s) in enumerate(zip(case['steps'], impl['steps'])):
+        if s['verdict'] == 'X':
+            continue
+        if s['verdict'] == 'HANG':
+            return f'step {k}: validation neither finished nor waited for a certificate'
+        poss, cert = conc_chain(case, case['insts'][ii], oid)
+        if s['verdict'] == 'A' and not poss:
+            return (f'step {k}: instance {ii} accepted a packet without a valid chain to its anchor while other validations '
+                    f'were in flight')
+        if cert and s['verdict'] != 'A':
+            return (f'step {k}: instance {ii} did not accept a packet with a valid chain while other validations were in '
+                    f'flight: {s["verdict"]}')
+    if impl['loop_errors'] and case.get('front', 'v1') == 'v1':     # (on appv2 the adapter's tasks are harness code)
+        return f'background task error: {impl["loop_errors"][:2]}'
+    return None
+
+
 # ------------------------------------------------------------------------------------- model
 def _ids(case, impl):
     """names -> model ids, keys -> model key tokens, object order"""
@@ -774,6 +1068,8 @@ def model_line(case, impl):
     `Ndn.Lvs.check`, the anchor's matched rules, `root_of_trust`, `validate_user_fns` and the construction itself."""
     if LV.is_lvs(case):
         return LV.model_line(case, impl)
+    if case.get('conc'):
+        return None         # concurrent validations are outside the model (a validation is atomic there): oracle only
     oids, names, kids = _ids(case, impl)
     idx = {oid: i for i, oid in enumerate(oids)}
     st = {'hmac': 'h', 'rsa': 'r', 'ecdsa': 'e', 'ed25519': 'd', 'other': 'o'}
@@ -858,6 +1154,8 @@ def oracle(case, impl):
     """the property statement, evaluated on the implementation's observable behaviour"""
     if LV.is_lvs(case):
         return LV.oracle(case, impl)
+    if case.get('conc'):
+        return oracle_conc(case, impl)
     for k, (inst, rec) in enumerate(zip(case['insts'], impl['insts'])):
         exp = spec_buildable(case, inst)
         got = rec['built'] == 'ok'
@@ -908,6 +1206,8 @@ def oracle(case, impl):
 
 def finding_key(case, impl, why):
     ed = '-ed25519' if 'Ed25519' in why else ''
+    if 'were in flight' in why:
+        return ('accept-without-chain' if 'accepted' in why else 'valid-chain-not-accepted') + '-concurrent'
     if 'accepted a packet without a valid chain' in why:
         return 'accept-without-chain' + ('-after-other-instances' if 'after other instances' in why else '')
     if 'did not accept a packet with a valid chain' in why:
@@ -924,6 +1224,8 @@ def finding_key(case, impl, why):
 def nontrivial(case, impl):
     if LV.is_lvs(case):
         return LV.nontrivial(case, impl)
+    if case.get('conc'):
+        return bool(impl.get('interests')) or any(s['verdict'] == 'A' for s in impl['steps'])
     return any(s['fetched'] or s['verdict'] == 'A' for s in impl['steps'])
 
 
@@ -940,6 +1242,15 @@ def tags(case, impl):
         if o.get('by'):
             t.append('keytype:' + ktype(o['by']))
     t.append('family:' + case.get('family', '?'))
+    if case.get('conc'):
+        t += ['front:' + case.get('front', 'v1'), 'conc-inflight:%d' % impl['max_inflight'],
+              'conc-outstanding-interests:%d' % min(impl['max_outstanding'], 4), 'conc-twins:%d' % min(len(case.get('twins', [])), 3)]
+        if any(o.get('pin') for o in case['objs'].values()):
+            t.append('conc-pinned-by-digest')
+        for (ii, oid), st in zip(case['steps'], impl['steps']):
+            if st['verdict'] != 'X':
+                poss, cert = conc_chain(case, case['insts'][ii], oid)
+                t.append('conc-chain:' + ('certain' if cert else 'possible' if poss else 'none'))
     if changes(case):
         for k, n, out in changes(case):
             t.append('change:' + ('absent' if out is None else out[0]))
@@ -1077,7 +1388,8 @@ def _chain_of(case, oid):
 
 
 DEVIATIONS = ['none', 'none', 'alias', 'alias', 'alias', 'shape', 'skip', 'forged', 'subst', 'missing', 'nack', 'timeout', 'unsigned', 'loop',
-              'astype', 'hmac', 'emptykey', 'garbagekey', 'wrongdata', 'prefixdata', 'prefixdata', 'oddcert', 'emptyname']
+              'astype', 'hmac', 'emptykey', 'garbagekey', 'wrongdata', 'prefixdata', 'prefixdata', 'oddcert', 'emptyname',
+              'pubforge', 'pubforge']
 
 
 def _inject(case, rng, alloc, pki, pkt_oid, dev):
@@ -1149,6 +1461,10 @@ def _inject(case, rng, alloc, pki, pkt_oid, dev):
         signee['mode'] = 'as:' + rng.choice([t for t in ('rsa', 'ecdsa', 'ed25519') if t != nat])
     elif dev == 'hmac':
         signee['mode'] = 'hmac'
+    elif dev == 'pubforge':
+        # a forgery anybody can compute: SignatureType rewritten (assigned and unassigned numbers), KeyLocator naming the
+        # genuine certificate, SignatureValue recomputed from public inputs (_pub_forger)
+        signee['mode'] = 'pub:%d:%s' % (rng.choice(PUB_TYPES), rng.choice(PUB_VALUES))
     elif dev in ('emptykey', 'garbagekey'):
         if signer_is_anchor:
             dev = 'none'
@@ -1286,7 +1602,7 @@ def _gen(rng, family='random'):
     elif r < 0.36:     # an anchor that is not properly self-signed
         bad = dict(case['objs'][h1.anchor])
         bad['name'] = f'/{site}/KEY/zr'
-        how = rng.choice(['other-key', 'astype', 'garbage', 'digest', 'hmac'])
+        how = rng.choice(['other-key', 'astype', 'garbage', 'digest', 'hmac', 'pub', 'pub'])
         if how == 'other-key':
             bad['by'] = alloc.key(ktype(bad['by']))
         elif how == 'astype':
@@ -1295,6 +1611,8 @@ def _gen(rng, family='random'):
             bad['key'] = 'garbage'
         elif how == 'digest':
             bad['mode'] = 'digest'
+        elif how == 'pub':       # "self-signed" with a value computed from the public key it carries
+            bad['mode'] = 'pub:%d:%s' % (rng.choice(PUB_TYPES), rng.choice(PUB_VALUES))
         else:
             bad['mode'] = 'hmac'
         oid = h1.add(bad, self_kl=True, serve=False)
@@ -1455,6 +1773,151 @@ def _gen_dynamic(rng):
     return c
 
 
+CONC_KINDS = ['twinkey', 'twinkey', 'twinkey', 'twinforged', 'twinforged', 'reissue', 'version', 'same', 'same']
+
+
+def _world_chain(case, ii, oid):
+    """[packet, certificate, ..., last certificate before the anchor] of a valid chain through the world, or None"""
+    if spec_chain(case, case['insts'][ii], oid)[0] is not True:
+        return None
+    aname = fullname(case['objs'][case['insts'][ii]['anchor']])
+    out, o = [oid], case['objs'][oid]
+    while True:
+        kn = kl_name(case, o)
+        if kn == aname:
+            return out
+        w = case['world'].get(kn)
+        if not w or w[0] != 'D' or w[1] in out:
+            return None
+        out.append(w[1])
+        o = case['objs'][w[1]]
+
+
+def _gen_conc(rng):
+    """CONCURRENT validations whose chains share certificate names.  From a generated PKI with a valid chain
+    packet - ... - S - C - ... - anchor (C named N, key K1, fetched from the network):
+      twinkey     the issuer also issued T = (N, K2): same name, other key, other bytes - reachable by implicit digest
+      twinforged  T = (N, K2) signed by a key that is not the issuer's (no chain through T)
+      reissue     T = (N, K1) issued again (same key, other bytes: the signature differs)
+      version     T = (N with another version component, K2 or K1): another name
+      same        no second certificate: several packets through C at once
+    and variants of the chain below C (every certificate of the variant cloned, each clone pinning the next by digest, the
+    packet renamed): signed with K1 / K2 / an unrelated key, naming C / T, pinned by digest or plainly.  2..5 of these
+    packets (and the original) are validated AT THE SAME TIME by one instance, two instances, or two instances handed one
+    storage object, on one NDNApp (legacy front-end, or ndn.appv2 through a three-line adapter); the certificate answers
+    arrive in an order drawn per case; unknown digests are Nacked or left unanswered; sometimes the plain name N is Nacked /
+    silent / absent while its certificates stay reachable by digest."""
+    base = _gen(rng, 'conc')
+    if base['deviation'] in ('loop', 'oddcert', 'prefixdata', 'alias', 'emptyname'):
+        return None
+    picks = []
+    for (ii, oid) in base['steps']:
+        ch = _world_chain(base, ii, oid) if base['objs'][oid]['kind'] == 'pkt' else None
+        if ch and len(ch) > 1 and [ii, ch] not in picks:
+            picks.append([ii, ch])
+    if not picks:
+        return None
+    ii, chain = rng.choice(picks)
+    pos = rng.randrange(1, len(chain))
+    if rng.random() < 0.5:
+        pos = 1
+    c = json.loads(json.dumps(base))
+    kind = rng.choice(CONC_KINDS)
+    c.update(family='conc:' + kind, conc=True, front=rng.choice(['v1', 'v1', 'v2']), twins=[], dnack=rng.random() < 0.4)
+    objs = c['objs']
+    C = objs[chain[pos]]
+    if C['key'] not in _pool_ids():
+        return None
+    used = set(o.get('key') for o in objs.values()) | set(o.get('by') for o in objs.values())
+    free = [k for k in sorted(_pool_ids()) if k not in used and ktype(k) == ktype(C['key'])]
+    rng.shuffle(free)
+    if len(free) < 2:
+        return None
+    k1, k2, kx = C['key'], free[0], free[1]
+
+    def add(o):
+        oid = 'o%02d' % len(objs)
+        objs[oid] = o
+        return oid
+    T = None
+    if kind in ('twinkey', 'twinforged', 'reissue'):
+        t = dict(C, key=k1 if kind == 'reissue' else k2)
+        if kind == 'twinforged':
+            t['by'] = kx
+        t['twin'] = 1              # (a field of its own: the description, hence the packet, differs from C's)
+        T = add(t)
+        if rng.random() < 0.9:     # else: T is named by packets but nobody publishes it
+            c['twins'].append(T)
+    elif kind == 'version':
+        t = dict(C, key=rng.choice([k1, k2, k2]), ver='v=%d' % rng.choice([999999, 1000001, 2000000]))
+        T = add(t)
+        if rng.random() < 0.9:
+            c['world'][fullname(t)] = ['D', T]
+    tkey = objs[T]['key'] if T else None
+
+    def variant(by, kl, pin, n, at=pos):
+        """the chain below C again, its element next to C signed with `by` and naming `kl`; clones of certificates pin the
+        next clone by digest and are published; the packet gets a name of its own"""
+        nxt, nxt_pin, signer_key = kl, pin, by
+        for j in range(at - 1, -1, -1):
+            o = dict(objs[chain[j]], kl=nxt, by=signer_key if j == at - 1 else objs[chain[j]]['by'])
+            o.pop('pin', None)
+            if nxt_pin:
+                o['pin'] = True
+            if o['kind'] == 'pkt':
+                o['name'] = o['name'] + 'c%d' % n
+            else:
+                o['twin'] = 10 + n
+            nxt, nxt_pin = add(o), True
+            if o['kind'] != 'pkt':
+                c['twins'].append(nxt)
+        return nxt
+    menu = [(k1, chain[pos], True), (kx, chain[pos], rng.random() < 0.5), (k1, chain[pos], False)]
+    if T:
+        pin_t = True if kind != 'version' else rng.random() < 0.5
+        menu += [(tkey, T, pin_t), (tkey, T, pin_t), (tkey, chain[pos], True), (tkey, chain[pos], True), (k1, T, pin_t),
+                 (kx, T, pin_t), (tkey, chain[pos], False)]
+    rng.shuffle(menu)
+    pkts = [chain[0]] if rng.random() < 0.5 else []
+    for n, (by, kl, pin) in enumerate(menu[:rng.randint(2, 4)]):
+        pkts.append(variant(by, kl, pin, n))
+    if os.environ.get('C14_PIN_ANCHOR'):
+        # NOT in the default stream (observation on the unchanged library, see conc_chain): the key locator of the element
+        # signed by the anchor names the anchor certificate WITH its implicit digest
+        a_oid = c['insts'][ii]['anchor']
+        pkts.append(variant(objs[a_oid]['key'], a_oid, True, 9, at=len(chain)))
+    if rng.random() < 0.3:      # the plain name: Nacked / silent / nothing there; C stays reachable by digest
+        n_ = fullname(C)
+        how = rng.choice(['N', 'N', 'T', None])
+        if how:
+            c['world'][n_] = [how]
+        else:
+            c['world'].pop(n_, None)
+        c['twins'].append(chain[pos])
+    insts = c['insts']
+    who = [ii]
+    r = rng.random()
+    if r < 0.6:                              # a second instance (same schema, same anchor)
+        i2 = json.loads(json.dumps(insts[ii]))
+        if r < 0.2 and insts[ii].get('storage') != 'empty':
+            insts[ii]['storage'] = i2['storage'] = 'shareC'      # ... handed the same storage object
+        elif r < 0.4:
+            i2['storage'] = rng.choice(['mem', 'empty'])
+        insts.append(i2)
+        who.append(len(insts) - 1)
+    rng.shuffle(pkts)
+    c['steps'] = [[rng.choice(who), p_] for p_ in pkts]
+    if rng.random() < 0.3:
+        c['steps'].append([rng.choice(who), rng.choice(pkts)])
+    others = [j for j in range(len(insts)) if j not in who]
+    if others and rng.random() < 0.3:        # another anchor / schema joins in
+        c['steps'].insert(rng.randrange(len(c['steps']) + 1), [rng.choice(others), rng.choice(pkts)])
+    # the order: mostly every validation is started before the first answer arrives, then the answers in a random order
+    ns = len(c['steps'])
+    c['sched'] = [0 if rng.random() < 0.9 else rng.randrange(8) for _ in range(ns)] + [rng.randrange(24) for _ in range(6 * ns + 12)]
+    return c
+
+
 def cases(rng, tier):
     n = 520 if tier == 'quick' else 9000
     nperm = 8 if tier == 'quick' else 150
@@ -1477,6 +1940,15 @@ def cases(rng, tier):
     while made < want and tries < want * 30:
         tries += 1
         c = _gen_dynamic(rng)
+        if c is not None:
+            made += 1
+            yield c
+    # several validations in flight at once, chains sharing certificate names (_gen_conc; oracle only)
+    made, tries = 0, 0
+    want = 60 if tier == 'quick' else 900
+    while made < want and tries < want * 30:
+        tries += 1
+        c = _gen_conc(rng)
         if c is not None:
             made += 1
             yield c
@@ -1512,6 +1984,11 @@ def shrink(case):
                 break
         return
     steps = case['steps']
+    if case.get('conc'):
+        if case.get('sched'):
+            yield dict(json.loads(json.dumps(case)), sched=[])      # everything started first, answers in the order asked
+        for t_ in case.get('twins', []):
+            yield dict(json.loads(json.dumps(case)), twins=[x for x in case['twins'] if x != t_])
     for i in range(len(steps)):
         c = json.loads(json.dumps(case))
         c['steps'] = steps[:i] + steps[i + 1:]
@@ -1545,6 +2022,8 @@ def shrink(case):
     if len(keep) < len(case['objs']):
         c = json.loads(json.dumps(case))
         c['objs'] = {k: v for k, v in case['objs'].items() if k in keep}
+        if 'twins' in c:
+            c['twins'] = [x for x in c['twins'] if x in keep]
         knames = set(fullname(o) for o in c['objs'].values())
         c['world'] = {n: w for n, w in case['world'].items() if n in knames and (w[0] != 'D' or w[1] in keep)}
         yield c
